@@ -39,6 +39,14 @@ class IntT(TypeSpec):
         return cx.int(value.t, model)
 
 
+class OptIntT(TypeSpec):
+    """Optional[int] as a symbolic value (None or an integer)"""
+    tag = "optint"
+
+    def fresh(self, name, st):
+        return Sym("optint", fresh(name, T.OptInt))
+
+
 class BoolT(TypeSpec):
     tag = "bool"
 
@@ -263,7 +271,9 @@ def specval(v, st=None, ex=None):
         from .values import ObjV
         if isinstance(o, ObjV):
             return NS({f: specval(x, st, ex) for f, x in o.fields.items()})
-        from .values import DictV
+        from .values import DictV, SymDict
+        if isinstance(o, SymDict):
+            return NS(dict(present=o.present, val=o.val, nonempty=o.nonempty))
         if isinstance(o, DictV):
             return {k: specval(x, st, ex) for k, x in o.items.items()}
         if isinstance(o, ListV):
